@@ -1,1 +1,6 @@
 pub mod dur;
+pub mod ulp;
+pub mod civil;
+pub mod etdb;
+pub mod leap;
+pub mod scales;
